@@ -235,17 +235,31 @@ func (c *Ctx) GuardSuccess(rule, key string, fn *ssa.Function, what string, sel 
 			}
 		}
 	}
-	if n == 0 {
-		c.R.Check(rule, key, false, c.pos(fn.Pos()), fmt.Sprintf("%s: no branch on %s found", fname(fn), what))
-		return false
-	}
 	r := ssau.ReachFromEntry(fn, cut)
 	succ := ec.SuccessExitsIn(r, cut)
+	if n == 0 {
+		// the guard may sit entirely inside predicate helpers whose verdict is returned
+		all := len(succ) > 0 && ec.IsBoolVerdict()
+		for _, s := range succ {
+			if !c.exitValueGuarded(fn, s, ec.Idx, sel, opt.BoolSuccess, r, 0) {
+				all = false
+			}
+		}
+		if !all {
+			c.R.Check(rule, key, false, c.pos(fn.Pos()), fmt.Sprintf("%s: no branch on %s found", fname(fn), what))
+			return false
+		}
+		n = 1
+		at = succ[0]
+	}
 	for _, s := range succ {
 		if retGuarded[s] {
 			continue
 		}
 		if opt.IgnoreExit != nil && opt.IgnoreExit(s) {
+			continue
+		}
+		if ec.IsBoolVerdict() && c.exitValueGuarded(fn, s, ec.Idx, sel, opt.BoolSuccess, r, 0) {
 			continue
 		}
 		c.R.Check(rule, key, false, c.posOf(s), fmt.Sprintf("%s: success exit at %s reachable without guard %s; path %s", fname(fn), c.posOf(s), what,
@@ -469,17 +483,16 @@ func (c *Ctx) matchGuardsA(fn *ssa.Function, sel IfArm, cut *ssau.Cut, depth int
 							guarded = len(ec.SuccessExitsIn(r, hc)) == 0
 						}
 						if !guarded && ec.IsBoolVerdict() {
-							// every return is a constant !boolSucc or a condition matched by sel with that polarity
+							// every value the helper can return as boolSucc is a condition matched by sel with that polarity
+							// (directly, joined from several paths, or delegated to a further helper)
+							hcut := hc
+							if hcut == nil {
+								hcut = ssau.NewCut()
+							}
+							hr := ssau.ReachFromEntry(h, hcut)
 							all, any := true, false
-							for _, ret := range ssau.Returns(h) {
-								v := ssau.ResolveSpill(ret.Results[idx])
-								if k, isC := v.(*ssa.Const); isC {
-									if k.Value != nil && k.Value.String() == fmt.Sprint(boolSucc) {
-										all = false
-									}
-									continue
-								}
-								if m, arm := safeSel(sel, &ssa.If{Cond: v}); m && arm == boolSucc {
+							for _, sx := range ec.SuccessExitsIn(hr, hcut) {
+								if c.exitValueGuarded(h, sx, idx, sel, boolSucc, hr, depth+1) {
 									any = true
 								} else {
 									all = false
@@ -549,4 +562,129 @@ func (c *Ctx) relocateBy(f *ssa.Function, has func(*ssa.Function) bool) *ssa.Fun
 		level = next
 	}
 	return f
+}
+
+// relocateVia is relocateBy to depth 1 that also returns the call in f through which the helper is reached (nil
+// when the construct is still in f): run role predicates inside ssau.WithParamSubst(via, ...) so that the helper's
+// parameters stand for f's values.
+func (c *Ctx) relocateVia(f *ssa.Function, has func(*ssa.Function) bool) (*ssa.Function, *ssa.Call) {
+	if f == nil || has(f) {
+		return f, nil
+	}
+	for _, b := range f.Blocks {
+		for _, in := range b.Instrs {
+			cl, ok := in.(*ssa.Call)
+			if !ok {
+				continue
+			}
+			h := cl.Call.StaticCallee()
+			if h == nil || h.Pkg != f.Pkg || h == f || len(h.Blocks) == 0 {
+				continue
+			}
+			if has(h) {
+				return h, cl
+			}
+		}
+	}
+	return f, nil
+}
+
+// withVia runs fn with the parameter substitution of via (if any).
+func withVia(via *ssa.Call, fn func()) {
+	if via != nil {
+		ssau.WithParamSubst(via, fn)
+		return
+	}
+	fn()
+}
+
+// orWrappers widens a call predicate to thin wrappers: one-block functions of the repository whose every result
+// is the result of a single call matched by pred (a renamed or re-scoped delegation).
+func orWrappers(pred func(*ssa.CallCommon) bool) func(*ssa.CallCommon) bool {
+	return func(cm *ssa.CallCommon) bool {
+		if pred(cm) {
+			return true
+		}
+		h := cm.StaticCallee()
+		if h == nil || h.Pkg == nil || len(h.Blocks) != 1 || !strings.HasPrefix(h.Pkg.Pkg.Path(), core.Mod) {
+			return false
+		}
+		ret, ok := h.Blocks[0].Instrs[len(h.Blocks[0].Instrs)-1].(*ssa.Return)
+		if !ok || len(ret.Results) == 0 {
+			return false
+		}
+		var inner *ssa.Call
+		for _, r := range ret.Results {
+			v := ssau.Unwrap(r)
+			if e, ok := v.(*ssa.Extract); ok {
+				v = e.Tuple
+			}
+			cl, ok := v.(*ssa.Call)
+			if !ok || !pred(&cl.Call) || (inner != nil && inner != cl) {
+				return false
+			}
+			inner = cl
+		}
+		return inner != nil
+	}
+}
+
+// exitValueGuarded: the verdict value returned at ret can equal boolSucc only when the guard holds: every phi
+// edge reachable under r is a constant failure, a condition matched by sel with the success polarity, or the
+// verdict of a repository helper all of whose success exits are guarded in the same sense.
+func (c *Ctx) exitValueGuarded(fn *ssa.Function, ret *ssa.Return, idx int, sel IfArm, boolSucc bool, r *ssau.Reach, depth int) bool {
+	if idx < 0 || idx >= len(ret.Results) {
+		return false
+	}
+	v := ssau.ResolveSpill(ret.Results[idx])
+	if phi, ok := v.(*ssa.Phi); ok && phi.Block() == ret.Block() {
+		for k, e := range phi.Edges {
+			p := phi.Block().Preds[k]
+			if r != nil && !r.EdgeReachable(p, phi.Block()) {
+				continue
+			}
+			if !c.valueGuarded(e, sel, boolSucc, depth) {
+				return false
+			}
+		}
+		return true
+	}
+	return c.valueGuarded(v, sel, boolSucc, depth)
+}
+
+func (c *Ctx) valueGuarded(v ssa.Value, sel IfArm, boolSucc bool, depth int) bool {
+	if k, ok := v.(*ssa.Const); ok {
+		return k.Value != nil && k.Value.String() != fmt.Sprint(boolSucc)
+	}
+	if m, arm := safeSel(sel, &ssa.If{Cond: v}); m && arm == boolSucc {
+		return true
+	}
+	if u, ok := v.(*ssa.UnOp); ok && u.Op == token.NOT {
+		return c.valueGuarded(u.X, sel, !boolSucc, depth)
+	}
+	cl, ok := v.(*ssa.Call)
+	if !ok || depth >= 2 {
+		return false
+	}
+	h := cl.Call.StaticCallee()
+	if h == nil || h.Pkg == nil || len(h.Blocks) == 0 || len(h.Blocks) > 40 || !strings.HasPrefix(h.Pkg.Pkg.Path(), core.Mod) || h.Signature.Results().Len() != 1 {
+		return false
+	}
+	guarded := false
+	ssau.WithParamSubst(cl, func() {
+		cut := ssau.NewCut()
+		c.matchGuards(h, sel, cut, depth+1)
+		ec := &ssau.ExitClassifier{Fn: h, Idx: 0, BoolSuccess: boolSucc}
+		if !ec.IsBoolVerdict() {
+			return
+		}
+		r := ssau.ReachFromEntry(h, cut)
+		guarded = true
+		for _, s := range ec.SuccessExitsIn(r, cut) {
+			if !c.exitValueGuarded(h, s, 0, sel, boolSucc, r, depth+1) {
+				guarded = false
+			}
+		}
+	})
+	return guarded
 }
